@@ -10,7 +10,8 @@ queried for the clauses below; counterexamples are replayed on the *real* export
 
 Claimed clauses: (once) every quantized layer receives exactly [q_i(w_i)] through one set_weights call, unquantized slots
 pass through; (same) dictionary entries of ordinary quantizers are the stored weights; (po2) sign * 2^exponent = stored
-weight with sign in {-1,+1}; (auto_po2) scale * integer weight = stored weight, integers inside the declared bit range.
+weight with sign in {-1,+1}; (auto_po2) scale * integer weight = stored weight, integers inside the declared bit range; (aligned) the per-weight lists
+'signs' / 'scales' have an entry at the index of every weight that needs one.
 Not covered: batch-norm fusing entries (QBatchNormalization cannot be constructed under the pinned Keras), pooling
 entries, folded layers, the hdf5 file, 'predictions unchanged / second export changes nothing' (they follow from the
 idempotence of the quantizers, C02/C03/C05, and are not re-derived here), clone_model_and_freeze_auto_po2_scale.
@@ -127,6 +128,8 @@ CASES = [
     ("auto_po2_kernel", [("QDense", "d1", ["quantized_bits(4,0,1,alpha='auto_po2')", "quantized_relu_po2(4)"], [(2, 2), (2,)])]),
     ("binary_kernel_plain_bias", [("QConv2D", "c1", ["binary(alpha=1)", None], [(1, 1, 1, 2), (2,)])]),
     ("auto_po2_unsigned_kernel", [("QDense", "d1", ["quantized_bits(4,1,0,keep_negative=False,alpha='auto_po2')", None], [(2, 1), (1,)])]),
+    ("po2_kernel_auto_po2_bias", [("QDense", "d1", ["quantized_po2(4)", "quantized_bits(4,0,1,alpha='auto_po2')"], [(1, 1), (1,)])]),
+    ("auto_po2_kernel_po2_bias", [("QDense", "d1", ["quantized_bits(4,0,1,alpha='auto_po2')", "quantized_po2(4)"], [(1, 1), (1,)])]),
     ("po2_kernel_relu_po2_bias", [("QDense", "d1", ["quantized_po2(4)", "quantized_relu_po2(4)"], [(1, 1), (1,)])]),
     ("two_layers", [("QDense", "d1", ["quantized_bits(4,0,1,alpha=1)", "quantized_po2(4)"], [(1, 1), (1,)]), ("Dense", "plain", None, [(1, 1), (1,)]),
                     ("QDense", "d2", ["ternary(alpha=1)", None], [(1, 2), (2,)])]),
@@ -251,6 +254,19 @@ def one_case(run, cname, case_layers):
       if ent is None or len(ent.get("weights", [])) != len(L.raw):
         run.violation(dict(clause="dictionary_entry", case=cname), meta, dict(clause="dictionary_entry", case=cname, layer=L.name))
         continue
+      # per-weight lists of the entry are aligned with the weights: one slot per weight, empty where it does not apply
+      run.concrete_checks += 1
+      need = {"signs": [i for i, q in enumerate(L.qs) if q is not None and q._desc.get("kind") == "quantized_po2"],
+              "scales": [i for i, q in enumerate(L.qs) if q is not None and q._scale is not None]}
+      misaligned = [k for k in ("signs", "scales") if need[k] and (k not in ent or len(ent[k]) <= max(need[k]))]
+      if misaligned:
+        rep = dict(clause="entry_lists_aligned", case=cname, layer=L.name)
+        okr, detail = replay_aligned(rep)
+        if okr:
+          run.violation(dict(clause="entry_lists_aligned", case=cname), dict(meta, lists=misaligned, **detail), rep)
+        else:
+          run.inconclusive_("%s/%s: %s misaligned in the proxy run but not in the real export" % (cname, L.name, misaligned))
+        continue
       for i, q in enumerate(L.qs):
         stored = L.recorded[0][i]
         hw = ent["weights"][i]
@@ -367,6 +383,27 @@ def replay_once(rep):
   return bool(bad), dict(slots=bad)
 
 
+def replay_aligned(rep):
+  """real export of a real model with random weights: 'signs' / 'scales' have one slot per weight"""
+  from .. import legacy_keras
+  legacy_keras.install()
+  U = importlib.import_module("qkeras.utils")
+  case_layers = [c for c in CASES if c[0] == rep["case"]][0][1]
+  rs = np.random.RandomState(11)
+  values = {(name, i): (rs.randn(*s) * 0.7).astype(np.float32) for cls, name, qstrs, shapes in case_layers for i, s in enumerate(shapes)}
+  m = real_model(case_layers, values)
+  d = U.model_save_quantized_weights(m)
+  L = m.get_layer(rep["layer"])
+  ent = d[L.name]
+  n = len(L.get_weights())
+  lens = {k: len(ent[k]) for k in ("signs", "scales") if k in ent}
+  qs = L.get_quantizers()[:n]
+  need = {"signs": [i for i, q in enumerate(qs) if type(q).__name__ == "quantized_po2"],
+          "scales": [i for i, q in enumerate(qs) if type(q).__name__ == "quantized_bits" and getattr(q, "alpha", None) == "auto_po2"]}
+  bad = [k for k in need if need[k] and lens.get(k, 0) <= max(need[k])]
+  return bool(bad), dict(weights=n, list_lengths=lens, slots_needing_an_entry=need, missing=bad)
+
+
 def replay_concrete(rep):
   """the real export (legacy Keras attributes stubbed) on a real model whose weights are the solver's quantized values"""
   from .. import legacy_keras
@@ -375,6 +412,8 @@ def replay_concrete(rep):
   U = importlib.import_module("qkeras.utils")
   if rep["clause"] == "quantized_once":
     return replay_once(rep)
+  if rep["clause"] == "entry_lists_aligned":
+    return replay_aligned(rep)
   case_layers = [c for c in CASES if c[0] == rep["case"]][0][1]
   mdl = rep["model"]
   values = {}
@@ -434,7 +473,7 @@ def replay(body):
 
 def run(tier, seed):
   r = harness.Run(PROP, "model_checking", tier, seed)
-  cases = CASES if tier == "thorough" else CASES[:5]
+  cases = CASES if tier == "thorough" else CASES[:7]
   for cname, case_layers in cases:
     try:
       one_case(r, cname, case_layers)
